@@ -5,7 +5,8 @@ from common import Check, assert_repo_import, eval_cases, eval_one, canon_tree, 
 import lang_common as LC
 
 IMPORTS = "Base GenThresholds Codebase"
-POOL = ["a", "b", "src", "lib", "x.y", "deep", "é", "a b", ".ci", "ci", ".a", "(legacy)", "+tools", "-old", "#archive", " lead", "!x", "~z"]
+POOL = ["a", "b", "src", "lib", "x.y", "deep", "é", "a b", ".ci", "ci", ".a", "(legacy)", "+tools", "-old", "#archive", " lead", "!x", "~z",
+        "legacy\\helpers", "\\lead", "trail\\", "a\\b"]     # a backslash is an ordinary character of a POSIX name (seeded change C07-10)
 LANGS3 = ["Python", "C", "JavaScript"]
 
 
